@@ -15,7 +15,7 @@ var cssFragments = []string{
 	"url(", "url( ", "url(\"", "url('", "URL(", "url(a", "url(a b)", "url(a\"b)", "url(a(b)", "url(\\)", "url()", "uRl(x)",
 	"0", "1", "12", "3.5", ".5", "5.", "+1", "-1", "+.5", "-.5", "1e3", "1E3", "1e+3", "1e-3", "1e", "1e+", "1.e3", "1E", "e3", "0.0", "00", "1e39", "1e-50",
 	"%", "#", "@", "-", "--", "-->", "<!--", "<", "!", "!important", "! important", "!IMPORTANT", "=", "~=", "|=", "^=", "$=", "*=", "||", "|", "~", "^", "$", "+", ".", ">", "?", "&",
-	"u+1", "U+1", "u+1-2", "u+1?", "U+??????", "u+0000001", "u+z", "u+", "u", "U+110000", "u+a-", "u+1-z",
+	"u+1", "U+1", "u+1-2", "u+1-02", "U+0-F", "u+10-00000a", "u+1?", "U+??????", "u+0000001", "u+z", "u+", "u", "U+110000", "u+a-", "u+1-z",
 	"\x00", "\x01", "\x7f", "\x0b", "é", " ", " ", "\U0001F600", "�", "_", "a", "b", "e", "E", "x", "px", "em", "PX", "n", "-n", "2n+1",
 	"ident", "-ident", "--x", "-\\-", "a\\.b", "#id", "#1a", "#-", "#--", "#-1", "#\\31", "@media", "@-x", "@--", "@1", "@\\31", "f(", "calc(", "rgb(", "var(--x)", "-f(", "--f(",
 	"color", "red", "margin", "10px", "1em", "50%", "1x", "1e1x", "1-2", "1_", "1--", "1-a", "1\\65 ", "1e\\33 ",
